@@ -243,7 +243,7 @@ Qed.
 (* ====================== JT808: no event sequence crashes the server ====================== *)
 Lemma step808_alive pa s e : v_crashed s = false -> v_crashed (step808 pa s e) = false.
 Proof.
-  intros H. unfold step808. rewrite H. destruct e as [c|c now d|c].
+  intros H. unfold step808. rewrite H. destruct e as [c|c now d|c|c].
   - destruct (cfind c (v_conns s)); [exact H|reflexivity].
   - destruct (cfind c (v_conns s)) as [k|]; [|exact H].
     destruct d as [|b d]; [exact H|].
@@ -251,6 +251,7 @@ Proof.
     destruct (conn_data pa (taken_by_others c (v_conns s)) now k (b :: d)) as [[k' outs|k' outs]|err|];
       try reflexivity; [exact H|congruence].
   - reflexivity.
+  - destruct (cfind c (v_conns s)); [reflexivity|exact H].
 Qed.
 
 Theorem no_crash_808 pa evs : outcome808 (run808 pa evs) <> Crash.
@@ -434,15 +435,16 @@ Proof. reflexivity. Qed.
 
 Lemma stepatt_alive d s e : a_crashed s = false -> a_crashed (stepatt d s e) = false.
 Proof.
-  intros H. unfold stepatt. rewrite H. destruct e as [c|c now seg|c].
+  intros H. unfold stepatt. rewrite H. destruct e as [c|c now seg|c|c].
   - destruct (cfind c (a_conns s)); [exact H|reflexivity].
-  - destruct (cfind c (a_conns s)) as [[k|]|]; try exact H.
+  - destruct (cfind c (a_conns s)) as [[[k br]|]|]; try exact H.
     destruct seg as [|b seg]; [exact H|].
-    rewrite feed_chk_ok. destruct (snd (feed d k (b :: seg))).
+    rewrite feed_chk_ok. cbv zeta. destruct (snd (feed d k (b :: seg))).
     + rewrite on_event_fail. reflexivity.
     + reflexivity.
-  - destruct (cfind c (a_conns s)) as [[k|]|]; try reflexivity; [|exact H].
+  - destruct (cfind c (a_conns s)) as [[[k br]|]|]; try reflexivity; [|exact H].
     rewrite on_event_quit. reflexivity.
+  - destruct (cfind c (a_conns s)) as [[[k br]|]|]; try reflexivity; exact H.
 Qed.
 
 Theorem no_crash_att d evs : outcomeatt (runatt d evs) <> Crash.
@@ -522,18 +524,20 @@ Proof.
   split. exact Ha. split. exact H2. revert Ha. unfold stepatt. rewrite H1.
   assert (forall w, filter (off c) ((c, w) :: a_log s1) = filter (off c) (a_log s1)) as Hf.
   { intros w. cbn [filter]. unfold off at 1. cbn [fst]. now rewrite N.eqb_refl. }
-  destruct e as [c0|c0 now seg|c0]; cbn [ev_conn] in He; subst c0.
+  destruct e as [c0|c0 now seg|c0|c0]; cbn [ev_conn] in He; subst c0.
   - destruct (cfind c (a_conns s1)). auto. cbn [a_conns a_log]. now rewrite cremove_cset_same.
-  - destruct (cfind c (a_conns s1)) as [[k|]|]; auto. destruct seg as [|b seg]; auto.
+  - destruct (cfind c (a_conns s1)) as [[[k br]|]|]; auto. destruct seg as [|b seg]; auto.
     destruct (feed_chk d k (b :: seg)) as [[[w k'] stop]| |]; cbn [crashatt a_crashed]; try discriminate.
-    destruct stop.
-    + destruct (on_event_chk d (set_stage k' ST_FAIL_QUIT)); cbn [crashatt a_crashed a_conns a_log]; try discriminate.
+    cbv zeta. destruct stop.
+    + destruct (on_event_chk d (set_stage _ ST_FAIL_QUIT)); cbn [crashatt a_crashed a_conns a_log]; try discriminate.
       intros _. now rewrite cremove_cset_same, Hf.
     + cbn [a_conns a_log]. intros _. now rewrite cremove_cset_same, Hf.
-  - destruct (cfind c (a_conns s1)) as [[k|]|]; auto.
+  - destruct (cfind c (a_conns s1)) as [[[k br]|]|]; auto.
     + destruct (on_event_chk d (quit k)); cbn [crashatt a_crashed a_conns a_log]; try discriminate.
       intros _. now rewrite cremove_idem.
     + cbn [a_conns a_log]. now rewrite cremove_idem.
+  - destruct (cfind c (a_conns s1)) as [[[k br]|]|]; auto.
+    cbn [a_conns a_log]. now rewrite cremove_cset_same.
 Qed.
 
 Lemma Ratt_other d c s1 s2 e : ev_conn e <> c -> Ratt c s1 s2 -> Ratt c (stepatt d s1 e) (stepatt d s2 e).
@@ -543,19 +547,21 @@ Proof.
   split. exact Ha1. split. exact Ha2. revert Ha1 Ha2. unfold stepatt. rewrite H1, H2.
   assert (forall c0 w, c0 <> c -> filter (off c) ((c0, w) :: a_log s1) = (c0, w) :: filter (off c) (a_log s1)) as Hf.
   { intros c0 w Hn. cbn [filter]. unfold off at 1. cbn [fst]. replace (c0 =? c) with false by lia. reflexivity. }
-  destruct e as [c0|c0 now seg|c0]; cbn [ev_conn] in He; rewrite Hc, cfind_cremove_other by exact He.
+  destruct e as [c0|c0 now seg|c0|c0]; cbn [ev_conn] in He; rewrite Hc, cfind_cremove_other by exact He.
   - destruct (cfind c0 (a_conns s1)). auto. cbn [a_conns a_log]. rewrite ?Hc, ?Hl. intros _ _.
     split. now rewrite cremove_cset_other. reflexivity.
-  - destruct (cfind c0 (a_conns s1)) as [[k|]|]; auto. destruct seg as [|b seg]; auto.
+  - destruct (cfind c0 (a_conns s1)) as [[[k br]|]|]; auto. destruct seg as [|b seg]; auto.
     destruct (feed_chk d k (b :: seg)) as [[[w k'] stop]| |]; cbn [crashatt a_crashed]; try discriminate.
-    destruct stop.
-    + destruct (on_event_chk d (set_stage k' ST_FAIL_QUIT)); cbn [crashatt a_crashed a_conns a_log]; try discriminate.
+    cbv zeta. destruct stop.
+    + destruct (on_event_chk d (set_stage _ ST_FAIL_QUIT)); cbn [crashatt a_crashed a_conns a_log]; try discriminate.
       intros _ _. rewrite ?Hc, ?Hl, Hf by exact He. split. now rewrite cremove_cset_other. reflexivity.
     + cbn [a_conns a_log]. intros _ _. rewrite ?Hc, ?Hl, Hf by exact He. split. now rewrite cremove_cset_other. reflexivity.
-  - destruct (cfind c0 (a_conns s1)) as [[k|]|]; auto.
+  - destruct (cfind c0 (a_conns s1)) as [[[k br]|]|]; auto.
     + destruct (on_event_chk d (quit k)); cbn [crashatt a_crashed a_conns a_log]; try discriminate.
       intros _ _. rewrite ?Hc, ?Hl. split. apply cremove_comm. reflexivity.
     + cbn [a_conns a_log]. intros _ _. rewrite ?Hc, ?Hl. split. apply cremove_comm. reflexivity.
+  - destruct (cfind c0 (a_conns s1)) as [[[k br]|]|]; auto.
+    cbn [a_conns a_log]. rewrite ?Hc, ?Hl. intros _ _. split. now rewrite cremove_cset_other. reflexivity.
 Qed.
 
 Lemma Ratt_run d c : forall evs s1 s2, Ratt c s1 s2 ->
@@ -695,7 +701,7 @@ Lemma R808_own pa c s1 s2 e : ev_conn e = c -> R808 c s1 s2 -> R808 c (step808 p
 Proof.
   intros He (H1 & H2 & Hu & Hc & Hl & Hs). pose proof (step808_alive pa s1 e H1) as Ha.
   split. exact Ha. split. exact H2. revert Ha. unfold step808. rewrite H1.
-  destruct e as [c0|c0 now d|c0]; cbn [ev_conn] in He; subst c0.
+  destruct e as [c0|c0 now d|c0|c0]; cbn [ev_conn] in He; subst c0.
   - destruct (cfind c (v_conns s1)). { intros _. auto 6. }
     cbn [v_conns v_log v_shut]. intros _. repeat split; auto. now apply cuniq_cset. now rewrite cremove_cset_same.
   - destruct (cfind c (v_conns s1)) as [k|]. 2:{ intros _. auto 6. }
@@ -707,6 +713,8 @@ Proof.
       cbn [filter]. now rewrite N.eqb_refl.
     + auto 6.
   - cbn [v_conns v_log v_shut]. intros _. repeat split; auto. now apply cuniq_cremove. now rewrite cremove_idem.
+  - destruct (cfind c (v_conns s1)). 2:{ intros _. auto 6. }
+    cbn [v_conns v_log v_shut]. intros _. repeat split; auto. now apply cuniq_cset. now rewrite cremove_cset_same.
 Qed.
 
 Lemma R808_other pa c s1 s2 e : ev_conn e <> c -> R808 c s1 s2 ->
@@ -716,7 +724,7 @@ Proof.
   intros He (H1 & H2 & Hu & Hc & Hl & Hs) Hsafe.
   pose proof (step808_alive pa s1 e H1) as Ha1. pose proof (step808_alive pa s2 e H2) as Ha2.
   split. exact Ha1. split. exact Ha2. revert Ha1 Ha2. unfold step808. rewrite H1, H2.
-  destruct e as [c0|c0 now d|c0]; cbn [ev_conn] in He, Hsafe; rewrite Hc, ?cfind_cremove_other by exact He.
+  destruct e as [c0|c0 now d|c0|c0]; cbn [ev_conn] in He, Hsafe; rewrite Hc, ?cfind_cremove_other by exact He.
   - destruct (cfind c0 (v_conns s1)). { intros _ _. auto 6. }
     cbn [v_conns v_log v_shut]. intros _ _. repeat split; auto. now apply cuniq_cset. now rewrite cremove_cset_other.
   - destruct (cfind c0 (v_conns s1)) as [k|] eqn:Ef. 2:{ intros _ _. auto 6. }
@@ -735,6 +743,8 @@ Proof.
       cbn [filter]. replace (c0 =? c) with false by lia. cbn [negb]. now rewrite Hs.
     + auto 6.
   - cbn [v_conns v_log v_shut]. intros _ _. repeat split; auto. now apply cuniq_cremove. apply cremove_comm.
+  - destruct (cfind c0 (v_conns s1)). 2:{ intros _ _. auto 6. }
+    cbn [v_conns v_log v_shut]. intros _ _. repeat split; auto. now apply cuniq_cset. now rewrite cremove_cset_other.
 Qed.
 
 Lemma R808_run pa c : forall evs s1 s2, R808 c s1 s2 -> iso_ok pa c s1 evs = true ->
@@ -842,7 +852,9 @@ Lemma Rone_other pa c s1 s2 e : ev_conn e <> c -> Rone c s1 s2 -> Rone c (step80
 Proof.
   intros He (H1 & H2 & Hc & Hk & Hl & Hs). pose proof (step808_alive pa s1 e H1) as Ha.
   split. exact Ha. split. exact H2. revert Ha. unfold step808. rewrite H1.
-  destruct e as [c0|c0 now d|c0]; cbn [ev_conn] in He.
+  destruct e as [c0|c0 now d|c0|c0]; cbn [ev_conn] in He.
+  4:{ destruct (cfind c0 (v_conns s1)). 2:{ intros _. auto 7. }
+      cbn [v_conns v_log v_shut]. intros _. rewrite cfind_cset_other by lia. auto 7. }
   - destruct (cfind c0 (v_conns s1)). { intros _. auto 7. }
     cbn [v_conns v_log v_shut]. intros _. rewrite cfind_cset_other by lia. auto 7.
   - destruct (cfind c0 (v_conns s1)) as [k|]. 2:{ intros _. auto 7. }
@@ -862,7 +874,11 @@ Proof.
   intros He Hnc (H1 & H2 & Hc & Hk & Hl & Hs).
   pose proof (step808_alive pa s1 e H1) as Ha1. pose proof (step808_alive pa s2 e H2) as Ha2.
   split. exact Ha1. split. exact Ha2. revert Ha1 Ha2. unfold step808. rewrite H1, H2.
-  destruct e as [c0|c0 now d|c0]; cbn [ev_conn] in He; subst c0. contradiction.
+  destruct e as [c0|c0 now d|c0|c0]; cbn [ev_conn] in He; subst c0. contradiction.
+  3:{ rewrite <- Hc. destruct (cfind c (v_conns s1)) as [k|] eqn:Ef.
+      2:{ intros _ _. rewrite Ef. repeat split; auto. }
+      cbn [v_conns v_log v_shut]. intros _ _. rewrite !cfind_cset_same. repeat split; auto.
+      intros k0 E0. injection E0 as <-. cbn [break_conn k_key]. apply Hk. reflexivity. }
   - rewrite <- Hc. destruct (cfind c (v_conns s1)) as [k|] eqn:Ef.
     2:{ intros _ _. rewrite Ef. repeat split; auto. }
     destruct d as [|b d]. { intros _ _. rewrite Ef. repeat split; auto. }
